@@ -819,6 +819,115 @@ let mon_conc prop case impl =
     (match !fails with [] -> "pass" | m :: _ -> "fail:" ^ m)
   | _ -> "fail:unparsable"
 
+(* ---- CLI: bundled client against the server ---- *)
+let run_cli toks =
+  let go flags dup tree mode blk ws tmo arg spec =
+    let rootp = bytes_of_string "/R" in
+    let distinct = has_flag flags 'd' in
+    let sdir = rootp @ bytes_of_string (if distinct then "/snd" else "/srv") in
+    let rdir = rootp @ bytes_of_string (if distinct then "/rcv" else "/srv") in
+    let cfg = { v_single = has_flag flags 's'; v_ro = has_flag flags 'r'; v_over = has_flag flags 'o';
+                v_clean = not (has_flag flags 'k'); v_dup = n_of_dec dup; v_sdir = sdir; v_rdir = rdir } in
+    let root = ref (build_tree tree) in
+    let mem = n_of_dec "1000000000000" in
+    let blk = n_of_dec blk and ws = n_of_dec ws and tmo = n_of_dec tmo in
+    let errnum c = errcode_num c in
+    let cli_entries = ref [] in
+    let res =
+      if mode = "d" then begin
+        let fpath = convert_file_path (bytes_of_hex arg) in
+        let rq = download_request fpath blk ws tmo in
+        match listen_step cfg mem !root lstate_init (n_of_int 1) (encode rq) with
+        | Ok (_, acts) ->
+          (match List.find_map (function AReply (_, p) -> Some p | _ -> None) acts with
+           | Some p ->
+             (match on_first_reply_download p blk ws with
+              | FrRefused c -> Printf.sprintf "err:server:%s" (match errnum c with 1 -> "1" | 2 -> "2" | 6 -> "6" | 4 -> "4" | _ -> "x")
+              | FrUnexpected -> "err:other"
+              | FrTransfer (b, w, _) ->
+                (match download_target [] fpath with
+                 | None -> "err:invalid-filename"
+                 | Some tgt ->
+                   (match List.find_opt (function ASpawnSend _ -> true | _ -> false) acts with
+                    | Some (ASpawnSend (path, o, rep, check)) ->
+                      (match stat !root path with
+                       | Some (NFile content) ->
+                         (* both sides use the acknowledged values; the exchange is the loss-free one *)
+                         let ((file, _), _) = run_upload { wo_blk = b; wo_tsize = N0; wo_tmo_s = n_of_int 5; wo_ws = w } (n_of_int 1) true content in
+                         ignore (o, rep, check);
+                         (match file with Some f -> cli_entries := [(string_of_bytes tgt, fp_text f)] | None -> ());
+                         "ok"
+                       | _ -> cli_entries := [(string_of_bytes tgt, "DIRFAIL")]; "ok")
+                    | _ -> "ok")))
+           | None -> "HANG")
+        | _ -> "LISTENER-DIED"
+      end else begin
+        let content = spec_content spec in
+        let local = bytes_of_string "/c/" @ bytes_of_hex arg in
+        match upload_request local blk ws tmo (n_of_int (List.length content)) with
+        | None -> "err:invalid-filename"
+        | Some rq ->
+          (match listen_step cfg mem !root lstate_init (n_of_int 1) (encode rq) with
+           | Ok (_, acts) ->
+             (match List.find_map (function AReply (_, p) -> Some p | _ -> None) acts with
+              | Some p ->
+                (match on_first_reply_upload p blk ws with
+                 | FrRefused c -> Printf.sprintf "err:server:%s" (match errnum c with 1 -> "1" | 2 -> "2" | 6 -> "6" | 4 -> "4" | _ -> "x")
+                 | FrUnexpected -> "err:other"
+                 | FrTransfer (_, _, _) ->
+                   (match List.find_opt (function ASpawnRecv _ -> true | _ -> false) acts with
+                    | Some (ASpawnRecv (path, o, rep, clean)) ->
+                      (match create_file !root path [] with
+                       | Some r0 ->
+                         root := r0;
+                         let ((file, _), _) = run_upload o rep clean content in
+                         (match file with Some f -> (match create_file !root path f with Some r1 -> root := r1 | None -> ()) | None -> root := remove_file !root path)
+                       | None -> ());
+                      "ok"
+                    | _ -> "ok"))
+              | None -> "HANG")
+           | _ -> "LISTENER-DIED")
+      end in
+    let cli = match !cli_entries with [] -> "-" | l -> String.concat "," (List.map (fun (p, f) -> hex_of_bytes (bytes_of_string p) ^ "=" ^ f) l) in
+    Printf.sprintf "res=%s cli=%s srv=%s" res cli (snapshot_tree !root) in
+  match toks with
+  | [_; flags; dup; tree; "d"; blk; ws; tmo; arg] -> go flags dup tree "d" blk ws tmo arg "-"
+  | [_; flags; dup; tree; "u"; blk; ws; tmo; arg; spec] -> go flags dup tree "u" blk ws tmo arg spec
+  | _ -> failwith "bad cli case"
+
+(* C14 on the implementation's result: byte-identical files at the specified places; a refusal creates no file *)
+let mon_cli case impl =
+  match words case, words impl with
+  | (_ :: flags :: _ :: tree :: mode :: _ :: _ :: _ :: arg :: rest), [res; cli; srv] ->
+    let distinct = has_flag flags 'd' in
+    let rootp = bytes_of_string "/R" in
+    let sdir = rootp @ bytes_of_string (if distinct then "/snd" else "/srv") in
+    let rdir_rel = if distinct then "rcv" else "srv" in
+    let init = build_tree tree in
+    let cli_entries = tree_entries (String.sub cli 4 (String.length cli - 4)) in
+    let srv_entries = tree_entries (String.sub srv 4 (String.length srv - 4)) in
+    if starts_with res "res=err" then
+      (if mode = "d" && cli_entries <> [] then "fail:refused-download-left-a-file" else "pass")
+    else if mode = "d" then begin
+      let fpath = convert_file_path (bytes_of_hex arg) in
+      match stat init (join sdir fpath), file_name fpath with
+      | Some (NFile content), Some base ->
+        if List.assoc_opt (string_of_bytes base) cli_entries = Some (fp_text content) then "pass"
+        else "fail:download-not-stored-byte-identical-under-its-basename"
+      | _ -> "pass"
+    end else begin
+      match rest, file_name (bytes_of_string "/c/" @ bytes_of_hex arg) with
+      | [spec], Some base ->
+        let want = fp_text (spec_content spec) in
+        let rel = rdir_rel ^ "/" ^ string_of_bytes base in
+        (* accepted iff the target did not exist (or overwrite) and the server is writable *)
+        let existed = List.mem_assoc rel (tree_entries (snapshot_tree init)) in
+        if has_flag flags 'r' || (existed && not (has_flag flags 'o')) then "pass"
+        else if List.assoc_opt rel srv_entries = Some want then "pass" else "fail:upload-not-stored-byte-identical-under-its-basename"
+      | _ -> "pass"
+    end
+  | _ -> "fail:unparsable"
+
 (* ---- CFG ---- *)
 let untok t = if t = "_" then [] else bytes_of_hex t
 let tok b = match b with [] -> "_" | _ -> hex_of_bytes b
@@ -1071,6 +1180,7 @@ let run_mon (line : string) : string =
              | "send" :: _ -> mon_send prop case impl
              | "recv" :: _ -> mon_recv prop case impl
              | "srv" :: _ -> mon_srv prop case impl
+             | "cli" :: _ -> if prop = "C14" then mon_cli case impl else "skip"
              | "conc" :: _ -> if prop = "C12" || prop = "C05" then mon_conc prop case impl else "skip"
              | "pair" :: _ -> if prop = "C04" || prop = "C14" || prop = "C16" then mon_pair prop case impl else "skip"
              | "cfgperm" :: _ -> if prop = "C17" then (match mon_cfgperm impl with "pass" -> mon_cfg_dup case impl | v -> v)
@@ -1092,6 +1202,7 @@ let run_line (line : string) : string =
   | "srv" :: _ -> run_srv toks
   | "pair" :: _ -> run_pair toks
   | "conc" :: _ -> run_conc toks
+  | "cli" :: _ -> run_cli toks
   | "cfg" :: _ -> run_cfg toks
   | "cfgperm" :: _ -> run_cfgperm toks
   | "ccfg" :: _ -> run_ccfg toks
